@@ -2,7 +2,7 @@
 C11 over stop + restart on the `Sched3Set` model (check C11R): what a restart reconstructs of the task pool — the
 inputs of the completion decision (status, completed outputs) and of the continued run (flows, flow wait, held,
 prerequisites) — in runs with `cylc set`, several flows, merges and flow wait.
-Statements only; proofs by reference to `Sched3SetRestart` / `Sched3SetNoDup*`.
+Statements only; proofs by reference to `Sched3SetRestart`, `Sched3SetRestart2` / `Sched3SetNoDup*`.
 
 The FULL statement "restart restores every pooled proxy exactly" is false on the current code (three recorded
 findings); it is kept as `restart_flowwait_full` / `restart_outputs_full` with counterexamples, and the partial
@@ -10,7 +10,7 @@ statements say exactly what IS restored: everything except what the restart read
 task_outputs row of the proxy's flows (flow wait, submit number, outputs), which is restored iff that row agrees
 with the proxy.
 -/
-import CylcModel.Sched3SetRestart
+import CylcModel.Sched3SetRestart2
 namespace CylcModel.C11R
 open CylcModel.Sched3Set
 
@@ -77,6 +77,33 @@ theorem restart_restores_when_row_agrees (hflag : dbRowPerFlowSet = true) (g : G
   simp only [Option.some.injEq] at hr'
   subst hr'
   exact ⟨y, hy, fun h => hfw.trans h, fun h => hd.trans h⟩
+
+theorem pinv_true : PInv (fun _ _ => True) :=
+  ⟨fun _ _ _ _ _ _ _ => trivial, fun _ _ _ _ _ => trivial, fun _ _ => trivial, fun _ _ _ => trivial⟩
+
+/-- **What a restart does to every pooled proxy of every reachable state - no assumption on the live code**:
+restored from the committed row of exactly its flows (fields as in `restart_restores`), or, when there is no such
+row, dropped (finding `set-db-row-missing`; with the repair that case does not arise: `restart_keeps_instances`). -/
+theorem restart_restores_or_drops (g : Graph) (ops : List Op) :
+    ∀ s ∈ run g ops, ∀ x ∈ s.pool,
+    (∃ r y, (atShutdown s).rows.find? (·.isKey x.pt x.name x.flows) = some r ∧
+      (restart g s).get? x.pt x.name = some y ∧
+      y.pt = x.pt ∧ y.name = x.name ∧ y.flows = x.flows ∧ y.pre = x.pre ∧ y.sui = x.sui ∧
+      y.status = restoredStatus x.status ∧
+      (x.held = true → y.held = true) ∧
+      (y.held = true → x.held = true ∨ ∃ hp, s.holdPoint = some hp ∧ hp < x.pt) ∧
+      y.flowWait = r.flowWait ∧
+      y.submitNum = (if x.status == .preparing then r.submitNum - 1 else r.submitNum) ∧
+      y.done = restoredDone g x r) ∨
+    ((atShutdown s).rows.find? (·.isKey x.pt x.name x.flows) = none ∧ (restart g s).get? x.pt x.name = none) := by
+  intro s hs x hx
+  exact restart_reads_row_or_drops g s (inv_run pinv_true g ops s hs).1 x hx
+
+/-- **A restart invents no task**: from ANY state, the instances of the restarted pool are a sub-list of the
+instances pooled before the stop. -/
+theorem restart_invents_nothing (g : Graph) (s : State) :
+    ((restart g s).pool.map Proxy.key).Sublist (s.pool.map Proxy.key) :=
+  restart_keys_sublist g s
 
 /-- the restart does not touch the history that `spawn_task` consults ("nothing completed is re-run" is C08S
 `no_rerun_in_flow` over these rows) -/
